@@ -31,16 +31,18 @@ OUTERS = {
     "O10": [("x", ("sc", "UInt8")), ("v", ("arr", "Float64", (None,))), ("s", ("str",))],
     "O11": [("piece", ("hyb", "Inner2")), ("s", ("sc", "Int64"))],
     "O12": [("mid", ("hyb", "Mid")), ("t", ("sc", "Float64"))],
+    # a part nested by value and a reference of the same class: the part can be lent to the reference field
+    "O13": [("inner", ("hyb", "Inner")), ("r", ("ref", "Inner"))],
 }
 RENAMES = ["none", "first", "all"]
 
 
 def describe(tier):
     return dict(
-        rule="history system: 10 hybrid class definitions over {scalar, string, scalar arrays 1-D static / 1-D dynamic / 2-D, nested hybrid (static and dynamic), "
-        "Ref to hybrid} x 3 rename variants; world = outer object in a traced buffer + helper inner objects in the same and in another buffer; events = "
+        rule="history system: 13 hybrid class definitions over {scalar, string, scalar arrays 1-D static / 1-D dynamic / 2-D, nested hybrid (static and dynamic), "
+        "Ref to hybrid} x 3 rename variants; world = outer object in a traced buffer + helper inner objects in the same and in another buffer (+ for reference-holding classes a second holder whose references are bound from the start); events = "
         "{set scalar/string field, set array whole / element, nested assignment from dict / from a hybrid of the same / another buffer, reference assignment "
-        "(same buffer, other buffer -> MemoryError, None), copy (same buffer, other buffer, other context), move (top level; nested and ref-holding -> "
+        "(same buffer, other buffer -> MemoryError, None, the holder's own nested part), move of a helper (MemoryError while any holder references it), copy (same buffer, other buffer, other context), move (top level; nested and ref-holding -> "
         "MemoryError), write through a dressed child, mutate a source afterwards}; exploration continues after refusals. Oracle at EVERY state: for every "
         "field getattr(h, pyname) equals getattr(h._xobject, xoname) equals the model; every dressed child's _xobject is the container's nested field (same "
         "buffer, same offset); copies independent, references shared; after move every nested dressed part lives in the target buffer.",
@@ -145,11 +147,27 @@ class World:
         kw = {self.ren.get(fn, fn): pycopy.deepcopy(v) for fn, v in m.items()}
         self.outer = self.add(oname, self.Outer(_buffer=self.B, **kw), m)
         self.copies = []
+        # classes holding references: a second holder in the same buffer whose references are bound from the start
+        # (an object can be referenced by several holders; one of them letting go does not free it)
+        self.sibling = None
+        if any(fs[0] == "ref" for _, fs in OUTERS[oname]):
+            m2 = {fn: default_value(fs, 7 + i) for i, (fn, fs) in enumerate(OUTERS[oname])}
+            kw2 = {self.ren.get(fn, fn): pycopy.deepcopy(v) for fn, v in m2.items()}
+            sib = self.Outer(_buffer=self.B, **kw2)
+            for fn, fs in OUTERS[oname]:
+                if fs[0] == "ref":
+                    sid = self.helpers[(fs[1], "same")]
+                    setattr(sib, self.ren.get(fn, fn), self.objs[sid]["h"])
+                    m2[fn] = ("id", sid)
+            self.sibling = self.add(oname, sib, m2)
 
     def add(self, cname, h, model):
         i = len(self.objs) + 1
         self.objs[i] = dict(cname=cname, h=h, m=model, movable=True)
         return i
+
+    def referenced(self, sid):
+        return any(isinstance(v, tuple) and v[:2] == ("id", sid) for o in self.objs.values() for v in o["m"].values())
 
     def pyname(self, oid, fn):
         return self.ren.get(fn, fn) if self.objs[oid]["cname"] == self.oname else fn
@@ -175,6 +193,9 @@ class World:
                     ev.append(("ref-bind", oid, fn, "same"))
                     ev.append(("ref-bind", oid, fn, "other"))
                     ev.append(("ref-bind", oid, fn, "none"))
+                    for fn2, fs2 in OUTERS[self.oname]:
+                        if fs2 == ("hyb", fs[1]) and oid == self.outer:
+                            ev.append(("ref-bind", oid, fn, "nested:" + fn2))
                     if o["m"][fn] is not None:
                         ev.append(("through", oid, fn))
         if not self.copies:
@@ -184,6 +205,10 @@ class World:
             ev.append(("move", dest))
         for key in sorted(self.helpers):
             ev.append(("mutate-src", key))
+        if self.sibling is not None:
+            for key in sorted(self.helpers):
+                if any(fs == ("ref", key[0]) for _, fs in OUTERS[self.oname]):
+                    ev.append(("move-helper", key))
         return ev
 
     def apply(self, ev):
@@ -238,6 +263,11 @@ class World:
                 setattr(o["h"], self.pyname(oid, fn), None)
                 o["m"][fn] = None
                 return None
+            if where.startswith("nested:"):
+                fn2 = where.split(":")[1]
+                setattr(o["h"], self.pyname(oid, fn), getattr(o["h"], self.pyname(oid, fn2)))
+                o["m"][fn] = ("nested", oid, fn2)
+                return None
             sid = self.helpers[(fs[1], where)]
             same_buffer = self.objs[sid]["h"]._buffer is o["h"]._buffer
             try:
@@ -262,6 +292,8 @@ class World:
                 o["m"][fn][first] = val
             elif o["m"][fn][0] == "dup":
                 o["m"][fn][1][first] = val
+            elif o["m"][fn][0] == "nested":
+                self.objs[o["m"][fn][1]]["m"][o["m"][fn][2]][first] = val
             else:
                 self.objs[o["m"][fn][1]]["m"][first] = val
         elif kind == "move-nested":
@@ -282,7 +314,7 @@ class World:
                 # references cannot be shared across buffers: the copy owns duplicates
                 for fn, fs in OUTERS[self.oname]:
                     if fs[0] == "ref" and m[fn] is not None:
-                        m[fn] = ("dup", pycopy.deepcopy(self.objs[m[fn][1]]["m"]))
+                        m[fn] = ("dup", pycopy.deepcopy(self.objs[m[fn][1]]["m"] if m[fn][0] == "id" else self.objs[m[fn][1]]["m"][m[fn][2]] if m[fn][0] == "nested" else m[fn][1]))
             self.copies.append(self.add(self.oname, c, m))
         elif kind == "move":
             o = self.objs[self.outer]
@@ -296,6 +328,16 @@ class World:
                 raise
             if has_refs:
                 raise AssertionError("move of an object that contains references accepted")
+        elif kind == "move-helper":
+            sid = self.helpers[ev[1]]
+            hh = self.objs[sid]["h"]
+            dest = self.F if hh._buffer is self.B else self.B
+            try:
+                hh.move(_buffer=dest)
+            except MemoryError:
+                return "refused"  # always allowed (an object that was referenced once may stay pinned)
+            if self.referenced(sid):
+                raise AssertionError("move of an object that a holder still references accepted")
         elif kind == "mutate-src":
             s = self.objs[self.helpers[ev[1]]]
             first = INNERS[ev[1][0]][0][0]
@@ -377,6 +419,11 @@ def check_hybrid(w, cname, h, m, pyname, out, res, label):
                 if int(xv._offset) != int(tgt["h"]._offset) or xv._buffer is not tgt["h"]._buffer:
                     out.append(("C18.share", "reference-not-shared", "%s.%s resolves to %d, the bound object lives at %d" % (label, fn, int(xv._offset), int(tgt["h"]._offset))))
                 tm = tgt["m"]
+            elif mv[0] == "nested":
+                part = getattr(w.objs[mv[1]]["h"]._xobject, mv[2])
+                if int(xv._offset) != int(part._offset) or xv._buffer is not part._buffer:
+                    out.append(("C18.share", "reference-not-shared", "%s.%s resolves to %d, the lent nested part lives at %d" % (label, fn, int(xv._offset), int(part._offset))))
+                tm = w.objs[mv[1]]["m"][mv[2]]
             else:
                 tm = mv[1]
             # value of the target through the raw xobject
@@ -493,7 +540,7 @@ def run_shard(shard, tier, seed):
                 res.transitions += 1
                 name = ev[0] + ("-refused" if r == "refused" else "")
                 res.events[name if name in ("move-refused",) else ev[0]] += 1
-                if r == "refused" and ev[0] in ("move", "move-nested"):
+                if r == "refused" and ev[0] in ("move", "move-nested", "move-helper"):
                     res.events["move-refused"] += 1
                 if probs:
                     report(probs, hist, hidx, ev, ei, r == "refused")
